@@ -63,6 +63,11 @@ def run(ctx):
     bridge.warm_up()
     kernelcheck.check_pinned(ctx)
     kernelcheck.run_configs(ctx, cfgs, budget_s=70 if ctx.tier == "quick" else 3000, mandatory=N_MANDATORY)
+    dc = kernelmat.default_config
+    rs = random.Random(ctx.sub("statcfg"))
+    stat_cfgs = [dc(op=op_, n=5, style=rs.choice(["binom", "gauss"]), grid=rs.choice([7, 11]), data_seed=rs.randrange(1 << 30), alpha=rs.choice([0.5, 1.0, 2.0]),
+                    outlier_prob=rs.choice([0.0, 0.1])) for op_ in ("dp", "prg")]
+    kernelcheck.run_stat_configs(ctx, stat_cfgs, 8000 if ctx.tier == "quick" else 200000)
     seeds = [ctx.sub(("path", i)) for i in range(120 if ctx.tier == "quick" else 4000)]
     res = [o for o in runner.pmap(pgpath.task, seeds, timeout=1200) if o["cfg"]["op"] == "subtree"]
     for out in res:
